@@ -68,7 +68,7 @@ CHECKS = {
         note='Decides necessary conditions of the property (invariants of a true ray, relations between reported quantities, '
              'covariance under the symmetry group incl. scaling, agreement of the two implementations); it does not integrate the '
              'reported ray, so "arrives at the receiver" and "equals the line integral" are decided only through those relations. '
-             'Open known finding D37 (analytic tracer loses precision within ~9 degrees of the vertical). The clause "the first '
+             'Hamilton relation d(tof)/d(rho) = n sin(theta)/c between neighbouring receiver positions (Stretch) and a long-lived tracer with re-assigned endpoints are part of the replay. Open known findings D37 (analytic tracer loses precision near the vertical) and D39 (linearised launch-angle search next to direct_r_max). The clause "the first '
              'solution never turns over" is checked in the form that is true of rays (DESIGN 12.5).'),
     'C03': dict(
         spec='PropagateRel.tla', design='12.2',
